@@ -473,7 +473,19 @@ trait Rebuild: V {
 }
 
 macro_rules! rebuild_dup { ($($t:ty),*) => {$( impl Rebuild for $t { fn rebuild(&self, _r: &mut Rng) -> Self { self.dup() } } )*}; }
-rebuild_dup!(u8, u16, u32, u64, u128, i8, i16, i32, i64, i128, bool, char, f32, f64, (), String, Named, Tup, UnitS, En);
+rebuild_dup!(u8, u16, u32, u64, u128, i8, i16, i32, i64, i128, bool, char, (), String, Named, Tup, UnitS, En);
+// a NaN is one value whatever computation produced it (sign, payload, quiet
+// or signalling): the stable hash normalises NaNs
+impl Rebuild for f32 {
+    fn rebuild(&self, r: &mut Rng) -> Self {
+        if self.is_nan() { f32::from_bits(*r.pick(&values::NANS32)) } else { *self }
+    }
+}
+impl Rebuild for f64 {
+    fn rebuild(&self, r: &mut Rng) -> Self {
+        if self.is_nan() { f64::from_bits(*r.pick(&values::NANS64)) } else { *self }
+    }
+}
 impl<T: Rebuild> Rebuild for Vec<T> {
     fn rebuild(&self, r: &mut Rng) -> Self {
         let mut v = Vec::with_capacity(self.len() + r.usize(9));
@@ -742,10 +754,12 @@ fn c13_any<T: Rebuild + StableHash>(r: &mut Rng, unordered: bool, codec: &dyn Fn
     let v = T::gen_v(r, 3);
     let real = real_hash(&v);
     let mut equal_ok = true;
+    values::NAN_IS_ONE_VALUE.with(|c| c.set(true));
     for _ in 0..3 {
         let w = v.rebuild(r);
         equal_ok &= w.same(&v) && real_hash(&w) == real && flat_of(&w) == flat_of(&v);
     }
+    values::NAN_IS_ONE_VALUE.with(|c| c.set(false));
     let codec_ok = codec(&v, real);
     let n = v.near(r);
     let near_distinct = if n.same(&v) { None } else { Some(flat_of(&n) != flat_of(&v) && real_hash(&n) != real) };
